@@ -323,7 +323,7 @@ def mon_sig(sc, r):
 # ------------------------------------------------------------------------------------------------ stop (C12)
 
 STOP_MS = 700
-PHASES = ["run", "timeout", "grace", "delay", "stop-shutdown-cont", "info", "grace-shutdown", "grace-stop-second-shutdown", "grace-twice"]
+PHASES = ["run", "timeout", "grace", "delay", "stop-shutdown-cont", "info", "grace-shutdown", "grace-stop-second-shutdown", "grace-twice", "drain"]
 RETRY_OVERRIDE = """
 [[profile.default.overrides]]
 filter = 'test(/^delay_/)'
@@ -390,6 +390,13 @@ def gen_stop(seed, k):
         t = {"bin": "t_one", "pkg": "alpha", "name": "ign_0", "kind": "second_shutdown"}
         sc.test("t_one", "ign_0", ["ignore:18", "ignore:2", "hang"]); tests.append(t)
         sigs = [(trig_started(t), 1, 300, signal.SIGINT), (trig_started(t), 1, 600, signal.SIGTSTP), (trig_started(t), 1, 900, signal.SIGINT), (trig_started(t), 1, 600 + STOP_MS, signal.SIGCONT)]
+    elif phase == "drain":
+        # the test has exited (200 ms in) and a descendant keeps its pipes open for another 600 ms, well inside the 1500 ms leak
+        # timeout: nextest is draining the handles when it is stopped (400 ms in) and continued 700 ms later
+        LEAK = 1500
+        t = {"bin": "t_one", "pkg": "alpha", "name": "drain_0", "kind": "drain", "exit_ms": 200, "hold_ms": 600}
+        sc.test("t_one", "drain_0", ["work:200", "child:600", "exit:0"]); tests.append(t)
+        sigs = [(trig_started(t), 1, 400, signal.SIGTSTP), (trig_started(t), 1, 400 + STOP_MS, signal.SIGCONT)]
     else:  # info
         t = {"bin": "t_one", "pkg": "alpha", "name": "work_0", "kind": "work", "run_ms": 800}
         sc.test("t_one", "work_0", ["work:800", "exit:0"]); tests.append(t)
@@ -397,7 +404,7 @@ def gen_stop(seed, k):
         sc.test("t_two", "delay_1", {"1": ["exit:1"], "2": ["work:40", "exit:0"]}); tests.append(t2)
         extra = RETRY_OVERRIDE
         sigs = [(trig_started(t), 1, 300, signal.SIGUSR1), (trig_started(t), 1, 1100, signal.SIGUSR1)]
-    sc.config = base_config(P, K, G, extra, threads=4, leak=200)
+    sc.config = base_config(P, K, G, extra, threads=4, leak=(1500 if phase == "drain" else 200))
     sc.signals = sigs
     sc.timeout_s = 12
     sc.meta = {"tests": tests, "family": "stop", "phase": phase, "P": P, "K": K, "G": G}
@@ -432,6 +439,12 @@ def mon_stop(sc, r):
         p = ps[0]; st = fin[0]; res, slowflag, taken = st[1], st[2] == "slow", int(st[3][:-2])
         sigs = [(s, ms(ns - p["start"])) for (ns, s) in p["sigs"]]
         alive_during_stop = t_stop is not None and p["start"] < t_stop and (not p.get("end") or p["end"][1] > t_stop)
+        if kind == "drain":
+            # the process is gone, a descendant holds the pipes: the result and the exit status must not change, nothing may hang or fail
+            if res not in ("P", "L"): V("result", f"[{phase}] test {t['name']} exited 0 and its handles were closed {t['hold_ms']} ms later (leak timeout 1500 ms) but is reported {res}")
+            if res == "L": V("result-drain", f"[{phase}] test {t['name']}: handles closed {t['hold_ms']} ms after exit, inside the 1500 ms leak timeout, but a stop of {stopped_ms:.0f} ms while nextest was draining them turned the result into LEAK")
+            if taken > t["exit_ms"] + t["hold_ms"] + 350: V("duration-drain", f"[{phase}] test {t['name']}: reported duration {taken} ms; the process ran {t['exit_ms']} ms and its handles were closed {t['hold_ms']} ms later; {stopped_ms:.0f} ms spent stopped must be excluded")
+            continue
         if alive_during_stop and kind not in ("delay", "second_shutdown"):
             gaps = [g for (_, g) in p.get("gaps", [])]
             if not gaps or (sum(gaps) if phase == "grace-twice" else max(gaps)) < stopped_ms - 250: V("test-not-stopped", f"[{phase}] test {t['name']} was not stopped while nextest was (gaps in its own clock: {gaps}, nextest stopped {stopped_ms:.0f} ms)")
@@ -501,7 +514,7 @@ def mon_stop(sc, r):
             if i == 0 and not any(hx("delay_1") in d and "DelayBeforeNextAttempt" in d for d in rs): V("info-state", f"request 1 (300 ms in): delay_1 is waiting out its retry delay but answered {rs}")
             if i == 0 and not any(hx("work_0") in d and "Running" in d for d in rs): V("info-state", f"request 1 (300 ms in): work_0 is running but answered {rs}")
         if r.exit != 0: V("exit", f"information requests changed the outcome: exit {r.exit}")
-    if phase in ("run", "delay") and r.exit != 0: V("exit", f"[{phase}] exit status {r.exit}, expected 0 (stop/continue must not change results)")
+    if phase in ("run", "delay", "drain") and r.exit != 0: V("exit", f"[{phase}] exit status {r.exit}, expected 0 (stop/continue must not change results)")
     if phase in ("timeout", "grace", "grace-twice") and r.exit != 100: V("exit", f"[{phase}] exit status {r.exit}, expected 100")
     return out
 
